@@ -12,7 +12,7 @@ VERIF = Path(__file__).resolve().parents[1]
 REPO = Path(os.environ.get('HOMONIM_REPO', '/repo'))
 OUT = VERIF / 'coq' / 'gen' / 'BandsGen.v'
 sys.path.insert(0, str(VERIF))
-from translate.resolve import Flow      # noqa: E402
+from translate.resolve import Flow, namedtuples      # noqa: E402
 
 
 class TranslatorError(Exception):
@@ -29,16 +29,31 @@ def generate():
     f = [n for n in cls.body if isinstance(n, ast.FunctionDef) and n.name == '_match_pair_bands'][0]
     fl = Flow(f)
     # the two band-info calls: (bands, names, wavelengths) of source and reference
-    info = [s for s in fl.order if isinstance(s, ast.Assign) and isinstance(s.targets[0], ast.Tuple) and len(s.targets[0].elts) == 3
-            and isinstance(s.value, ast.Call) and U(s.value.func).endswith('_get_band_info')]
+    info = [s for s in fl.order if isinstance(s, ast.Assign) and len(s.targets) == 1 and isinstance(s.value, ast.Call) and U(s.value.func).endswith('_get_band_info')]
     if len(info) != 2:
         raise TranslatorError('_match_pair_bands: two _get_band_info calls expected')
-    (sb, _sn, sw), (rb, _rn, rw) = [[U(e) for e in s.targets[0].elts] for s in info]
+    triples = []
+    for s_ in info:
+        t_ = s_.targets[0]
+        if isinstance(t_, ast.Tuple) and len(t_.elts) == 3:
+            triples.append([U(e) for e in t_.elts])
+        elif isinstance(t_, ast.Name):
+            # a (bands, names, wavelengths) record: the module's three-field NamedTuple; uses resolve to <call>.<field>
+            recs = [flds for flds in namedtuples(mp).values() if len(flds) == 3]
+            if len(recs) != 1:
+                raise TranslatorError('_match_pair_bands: band info record')
+            call_txt = fl.text(s_.value, s_)
+            triples.append([f'{call_txt}.{fld}' for fld in recs[0]])
+        else:
+            raise TranslatorError('_match_pair_bands: band info target')
+    (sb, _sn, sw), (rb, _rn, rw) = triples
     okinfo = U(info[0].value.args[0]) == fl.params[1] and U(info[1].value.args[0]) == fl.params[2] and \
         {k.arg: U(k.value) for k in info[0].value.keywords} == {'bands': 'self._src_bands'} and {k.arg: U(k.value) for k in info[1].value.keywords} == {'bands': 'self._ref_bands'}
 
     atoms = {f'len({sb}) > len({rb})': '(m <? n)', f'len({rb}) < len({sb})': '(m <? n)', f'len({sb}) == len({rb})': '(n =? m)', f'len({rb}) == len({sb})': '(n =? m)',
-             'self._force': 'force', f'any({sw})': 'sany', f'any({rw})': 'rany'}
+             f'len({sb}) != len({rb})': '(negb (n =? m))', f'len({rb}) != len({sb})': '(negb (n =? m))',
+             f'len({sb}) <= len({rb})': '(negb (m <? n))', f'len({rb}) >= len({sb})': '(negb (m <? n))',
+             'self._force': 'force', f'any({sw})': 'sany', f'any({rw})': 'rany', f'np.any({sw})': 'sany', f'np.any({rw})': 'rany'}
 
     def btr(n):
         t = U(n)
@@ -50,12 +65,12 @@ def generate():
             return '(' + (' && ' if isinstance(n.op, ast.And) else ' || ').join(btr(v) for v in n.values) + ')'
         if isinstance(n, ast.Compare) and len(n.ops) == 1 and isinstance(n.ops[0], ast.Lt) and 'np.isnan' in t and t.endswith(f'min(len({sb}), len({rb}))'):
             return 'short'       # fewer bands matched so far than min(n, m)
-        if 'match_dist' in t and '_max_rel_wavelength_diff' in t and t.startswith('any('):
+        if 'match_dist' in t and '_max_rel_wavelength_diff' in t and t.startswith(('any(', 'np.any(')) and ' > ' in t:
             return 'over'        # some matched distance is over the tolerance
         raise TranslatorError(f'_match_pair_bands: unsupported condition {t[:160]}')
 
     def cond(node):
-        gs = fl.guards(node)
+        gs = fl.guards(node, raises=True)
         parts = []
         for (t, br) in gs:
             c = btr(ast.parse(t, mode='eval').body)
@@ -85,9 +100,20 @@ def generate():
              and U(s.targets[0].slice) == 'unmatched']
     if len(fills) != 2:
         raise TranslatorError(f'_match_pair_bands: two fills of the unmatched bands expected, found {len(fills)}')
-    conds = sorted(cond(s) for s in fills)
-    out.append(f'Definition gen_fill_file_order {sig} : bool := {[c for c in conds if "(n =? m)" in c and "negb (n =? m)" not in c][0]}.')
-    out.append(f'Definition gen_fill_truncated {sig} : bool := {[c for c in conds if "negb (n =? m)" in c][0]}.')
+    conds = [cond(s) for s in fills]
+
+    def table(c):
+        import itertools
+        py = c.replace('(n =? m)', 'eq').replace('(m <? n)', 'lt').replace('&&', ' and ').replace('||', ' or ').replace('negb', ' not ')
+        return tuple(bool(eval(py, dict(eq=e, lt=l, force=f_, sany=a, rany=r, over=o, short=h, true=True)))      # noqa: S307 (generated from the ast above)
+                     for e, l, f_, a, r, o, h in itertools.product([False, True], repeat=7))
+    want_order = table('(short && (n =? m))')
+    order = [c for c in conds if table(c) == want_order]
+    trunc = [c for c in conds if table(c) != want_order]
+    if len(trunc) != 1 or len(order) != 1:
+        raise TranslatorError(f'_match_pair_bands: fills under {conds}')
+    out.append(f'Definition gen_fill_file_order {sig} : bool := {order[0]}.')
+    out.append(f'Definition gen_fill_truncated {sig} : bool := {trunc[0]}.')
     return out
 
 
